@@ -18,6 +18,7 @@ fn clip(s: &str) -> String {
 pub const KEY_SHELLS: &str = "commit-refusal-leaves-pending-shells-visible";
 pub const KEY_PARTIAL: &str = "write-loop-failure-leaves-partial-commit";
 pub const KEY_REFUSED: &str = "refused-statement-changed-observable-state";
+pub const KEY_ERASED: &str = "refused-statement-destroyed-version-rows";
 
 /// keys of the query dump that differ between two dumps (an element-history block that exists on
 /// one side only counts when it is not the empty history)
@@ -53,8 +54,11 @@ pub fn check_noop(out: &Outcome, pre_q: &BTreeMap<String, String>, post_q: &BTre
     if post.journal != pre.journal {
         fs.push(Failure { key: KEY_REFUSED.into(), what: "journal rows changed by a refused / dry statement".into(), expected: format!("{:?}", pre.journal.len()), observed: format!("{:?}", post.journal.len()) });
     }
-    if post.vlog != pre.vlog && d.is_empty() {
-        fs.push(Failure { key: KEY_REFUSED.into(), what: "version-log rows changed by a refused / dry statement".into(), expected: format!("{}", pre.vlog.len()), observed: format!("{}", post.vlog.len()) });
+    if post.vlog != pre.vlog {
+        let gone: Vec<String> = pre.vlog.iter().filter(|v| !post.vlog.contains(v)).map(|v| format!("{}/v{}/seq{}", v.0, v.1, v.2)).collect();
+        let key = if gone.is_empty() { KEY_REFUSED } else { KEY_ERASED };
+        fs.push(Failure { key: key.into(), what: format!("a statement that was {} changed the version log ({} row(s) destroyed: {})", match out { Outcome::Dry { .. } => "a dry run", Outcome::Parse(_) => "rejected by the parser", _ => "refused" }, gone.len(), clip(&gone.join(","))),
+            expected: format!("{} version rows, unchanged", pre.vlog.len()), observed: format!("{} version rows; outcome {}", post.vlog.len(), clip(&format!("{out:?}"))) });
     }
     if post.seq < pre.seq || (matches!(out, Outcome::Parse(_)) && post.seq != pre.seq) {
         fs.push(Failure { key: "sequence-not-monotone".into(), what: "Space sequence moved backwards (or moved for an unparsable command)".into(), expected: format!(">= {}", pre.seq), observed: post.seq.to_string() });
@@ -63,7 +67,9 @@ pub fn check_noop(out: &Outcome, pre_q: &BTreeMap<String, String>, post_q: &BTre
 }
 
 /// a committed statement: one fresh sequence, one journal row, each changed element +1 exactly once
-pub fn check_commit(out: &Outcome, pre: &RawDump, post: &RawDump) -> Vec<Failure> {
+/// `purge_targets`: the literal targets of the statement's PURGE clauses (a committed purge destroys
+/// the version rows its target had)
+pub fn check_commit(out: &Outcome, pre: &RawDump, post: &RawDump, purge_targets: &BTreeSet<String>) -> Vec<Failure> {
     let mut fs = Vec::new();
     let Outcome::Done { seq, status, changes, .. } = out else { return fs };
     let mut fail = |key: &str, what: String, expected: String, observed: String| fs.push(Failure { key: key.into(), what, expected: clip(&expected), observed: clip(&observed) });
@@ -114,7 +120,14 @@ pub fn check_commit(out: &Outcome, pre: &RawDump, post: &RawDump) -> Vec<Failure
         }
     }
     // version log: one row per change
-    let mut want_v: Vec<(String, u64, u64)> = pre.vlog.iter().map(|v| (v.0.clone(), v.1, v.2)).collect();
+    let erased: BTreeSet<&String> = purge_targets.iter().filter(|t| ids.contains(t)).collect();
+    let mut want_v: Vec<(String, u64, u64)> = pre.vlog.iter().filter(|v| !erased.contains(&v.0)).map(|v| (v.0.clone(), v.1, v.2)).collect();
+    // every row of a purged element must be gone: nothing of it may stay readable AS OF
+    for t in &erased {
+        if post.vlog.iter().any(|v| &&v.0 == t && v.2 != *seq) {
+            fail("purge-left-version-rows", format!("{t} was purged but old version rows survive"), "only the stub row".into(), format!("{:?}", post.vlog.iter().filter(|v| &&v.0 == t).map(|v| (v.1, v.2)).collect::<Vec<_>>()));
+        }
+    }
     let mut added: Vec<(String, u64, u64)> = changes.iter().map(|(i, _, v)| (i.clone(), *v, *seq)).collect();
     let mut got_v: Vec<(String, u64, u64)> = post.vlog.iter().map(|v| (v.0.clone(), v.1, v.2)).collect();
     let tail: Vec<(String, u64, u64)> = got_v.split_off(want_v.len().min(got_v.len()));
@@ -123,7 +136,7 @@ pub fn check_commit(out: &Outcome, pre: &RawDump, post: &RawDump) -> Vec<Failure
     added.sort();
     if got_v != want_v || tail_sorted != added {
         want_v.extend(added);
-        fail("version-log-not-one-row-per-change", "the version log must gain exactly one row per changed element".into(), format!("{want_v:?}"), format!("{:?}", post.vlog.iter().map(|v| (v.0.clone(), v.1, v.2)).collect::<Vec<_>>()));
+        fail("version-log-not-one-row-per-change", "the version log must gain exactly one row per changed element (and lose only the rows of purged ones)".into(), format!("{want_v:?}"), format!("{:?}", post.vlog.iter().map(|v| (v.0.clone(), v.1, v.2)).collect::<Vec<_>>()));
     }
     fs
 }
